@@ -74,6 +74,10 @@ def families(tier):
     out.append(("gap::parity4-gated", _build({"a": I_, "b": I_, "c": I_, "d": I_, "e": I_, "g": I_, "p": ("xor", ["a", "b", "c", "d"]), "q": ("or", ["e", "g"]), "o": ("and", ["p", "q"])}, outputs=["o"])))
     out.append(("gap::parity-or-constant-false", _build({"a": I_, "b": I_, "c": I_, "p": ("xor", ["a", "b"]), "nc": ("not", ["c"]), "z": ("and", ["c", "nc"]), "o": ("or", ["p", "z"])}, outputs=["o"])))
     out.append(("gap::parity3-and-parity2", _build({"a": I_, "b": I_, "c": I_, "d": I_, "e": I_, "p": ("xnor", ["a", "b", "c"]), "q": ("xor", ["d", "e"]), "o": ("nor", ["p", "q"])}, outputs=["o", "p"])))
+    # read-once cones (trees without shared nets) three levels deep with a parity gate under a controlled gate: a closed form for
+    # tree cones has to get the 0- and 1-sensitivities of a parity gate right
+    out.append(("tree::and-over-xor-of-ands", _build({"a": I_, "b": I_, "c": I_, "d": I_, "e": I_, "p": ("and", ["a", "b"]), "q": ("and", ["c", "d"]), "x": ("xor", ["p", "q"]), "o": ("and", ["x", "e"])}, outputs=["o"])))
+    out.append(("tree::nor-over-xnor-of-or-and-nand", _build({"a": I_, "b": I_, "c": I_, "d": I_, "e": I_, "p": ("or", ["a", "b"]), "q": ("nand", ["c", "d"]), "x": ("xnor", ["p", "q"]), "o": ("nor", ["x", "e"])}, outputs=["o"])))
     keep = ("feedthrough-and-gate", "controlling-constants", "net-and-its-buffer", "reconvergence-through-inverters", "many-outputs-sharing-logic") if tier == "quick" else None
     out += [(f"corpus::{k}", c) for k, tags, c in corpus(tier, exclude=("x", "names", "joining", "wide")) if keep is None or k in keep]
     return out
